@@ -97,6 +97,27 @@ Qed.
 
 (* unary minus on i32: ALL operands (-(INT_MIN) hits the out-of-range conversion, whose
    amd64 result 0x80000000 happens to be the wrapped value) *)
+Lemma sgn_cases p : (p < H32 /\ sgn p = p) \/ (H32 <= p /\ sgn p = p - M32).
+Proof. unfold sgn. destruct (Z.ltb_spec p H32); [left | right]; split; auto. Qed.
+
+Lemma sgn_min p : in32 p -> sgn p = - two31 -> p = two31.
+Proof.
+  intros Hp E. destruct (sgn_cases p) as [[H1 H2] | [H1 H2]]; rewrite H2 in E; clear H2;
+    unfold in32 in Hp; unfold H32, M32, two31 in *; lia.
+Qed.
+
+Lemma neg32_min : neg32 two31 = two31.
+Proof. vm_compute. reflexivity. Qed.
+
+Lemma neg32_wrap p : in32 p -> (- sgn p) mod two32 = neg32 p.
+Proof.
+  intros Hp. unfold neg32, wrap, two32.
+  destruct (sgn_cases p) as [[H1 H2] | [H1 H2]]; rewrite H2; clear H2.
+  - reflexivity.
+  - unfold M32. replace (- (p - 4294967296)) with (- p + 1 * 4294967296) by ring.
+    rewrite Z_mod_plus_full. reflexivity.
+Qed.
+
 Theorem sound_neg_i32 p : in32 p ->
   spec_unop UNeg (VI32 p) = Ok (model_unop UNeg TI32 (VI32 p)).
 Proof.
@@ -106,12 +127,9 @@ Proof.
   pose proof (sgn_bound p Hp) as B.
   destruct (Z.eq_dec (sgn p) (- two31)) as [E | N].
   - rewrite (go_int32_out _ _ Hh) by (rewrite E; unfold two31; lia).
-    assert (p = two31) as ->.
-    { unfold sgn, in32, M32, H32, two31 in *. destruct (Z.ltb_spec p 2147483648); lia. }
-    reflexivity.
+    rewrite (sgn_min p Hp E). rewrite neg32_min. reflexivity.
   - rewrite (go_int32_holds _ _ Hh) by (unfold two31 in *; lia).
-    f_equal. f_equal. clear Hh N B. unfold neg32, wrap, sgn, in32, H32, two32, M32 in *.
-    destruct (Z.ltb_spec p 2147483648); lia.
+    rewrite (neg32_wrap p Hp). reflexivity.
 Qed.
 
 (* ------------------------------------------------------------------ + - * on u32 *)
@@ -151,6 +169,15 @@ Proof.
 Qed.
 
 (* ------------------------------------------------------------------ ~ and ! *)
+Lemma lnot_sgn p : in32 p -> Z.lnot (sgn p) mod two32 = not32 p.
+Proof.
+  intros Hp. destruct (sgn_cases p) as [[H1 H2] | [H1 H2]]; rewrite H2; clear H2;
+    unfold not32, ALL_ONES, Z.lnot, Z.pred, two32, in32, H32, M32 in *.
+  - replace (- p + -1) with (4294967296 - 1 - p + (-1) * 4294967296) by ring.
+    rewrite Z_mod_plus_full. rewrite Z.mod_small by lia. reflexivity.
+  - replace (- (p - 4294967296) + -1) with (4294967296 - 1 - p) by ring. rewrite Z.mod_small by lia. reflexivity.
+Qed.
+
 Theorem sound_bitnot_i32 p : in32 p ->
   spec_unop UBitNot (VI32 p) = Ok (model_unop UBitNot TI32 (VI32 p)).
 Proof.
@@ -161,8 +188,14 @@ Proof.
   assert (Hh : holds (f64_of_Z (Z.lnot (sgn p))) (Z.lnot (sgn p))).
   { apply f64_of_Z_holds. unfold Z.lnot, Z.pred, two31, P53 in *. lia. }
   rewrite (go_int32_holds _ _ Hh) by (unfold Z.lnot, Z.pred, two31 in *; lia).
-  f_equal. f_equal. unfold not32, ALL_ONES, M32, Z.lnot, Z.pred, two32.
-  unfold sgn, in32, M32, H32 in *. destruct (Z.ltb_spec p 2147483648); lia.
+  rewrite (lnot_sgn p Hp). reflexivity.
+Qed.
+
+Lemma lnot_u32 p : in32 p -> Z.lnot p mod two32 = not32 p.
+Proof.
+  intros Hp. unfold not32, ALL_ONES, Z.lnot, Z.pred, two32, in32, M32 in *.
+  replace (- p + -1) with (4294967296 - 1 - p + (-1) * 4294967296) by ring.
+  rewrite Z_mod_plus_full. rewrite Z.mod_small by lia. reflexivity.
 Qed.
 
 Theorem sound_bitnot_u32 p : in32 p ->
@@ -174,7 +207,7 @@ Proof.
   assert (Hh : holds (f64_of_Z (Z.lnot p)) (Z.lnot p)).
   { apply f64_of_Z_holds. unfold Z.lnot, Z.pred, in32, M32, P53 in *. lia. }
   rewrite (go_uint32_holds _ _ Hh) by (unfold Z.lnot, Z.pred, in32, M32, two63 in *; lia).
-  f_equal. f_equal. unfold not32, ALL_ONES, M32, Z.lnot, Z.pred, two32, in32 in *. lia.
+  rewrite (lnot_u32 p Hp). reflexivity.
 Qed.
 
 Theorem sound_not_bool b :
@@ -356,9 +389,9 @@ Qed.
    evaluated over the values of overrides 0..i-1 *)
 Lemma resolve_from_char : forall m ds pre vs,
   resolve_from m pre ds = Some vs ->
-  exists rest, vs = pre ++ rest /\ length rest = length ds /\
+  exists rest, vs = (pre ++ rest)%list /\ List.length rest = List.length ds /\
     forall i d, nth_error ds i = Some d ->
-      resolve_one m (firstn (length pre + i) vs) d = nth_error rest i.
+      resolve_one m (firstn (List.length pre + i) vs) d = nth_error rest i.
 Proof.
   intros m ds. induction ds as [| d0 ds IH]; intros pre vs H.
   - cbn in H. inversion H; subst. exists []. rewrite app_nil_r. repeat split; try reflexivity.
@@ -373,12 +406,12 @@ Proof.
         rewrite firstn_app, Nat.sub_diag, firstn_all. cbn [firstn]. rewrite app_nil_r. exact E.
       * cbn [nth_error] in Hn |- *. specialize (Hall i d Hn).
         rewrite app_length in Hall. cbn [length] in Hall.
-        replace (length pre + S i)%nat with (length pre + 1 + i)%nat by lia. exact Hall.
+        replace (List.length pre + S i)%nat with (List.length pre + 1 + i)%nat by lia. exact Hall.
 Qed.
 
 Theorem derived_overrides_topological : forall m ds vs,
   resolve_all m ds = Some vs ->
-  length vs = length ds /\
+  List.length vs = List.length ds /\
   forall i d, nth_error ds i = Some d -> nth_error vs i = resolve_one m (firstn i vs) d.
 Proof.
   intros m ds vs H. destruct (resolve_from_char m ds [] vs H) as [rest [Hvs [Hlen Hall]]].
@@ -395,7 +428,7 @@ Proof.
   intros m ds vs i d k H Hn Hf Hi Hk.
   destruct (derived_overrides_topological m ds vs H) as [Hlen Hall].
   rewrite (Hall i d Hn). unfold resolve_one. rewrite Hf, Hi. cbn [eval_g]. f_equal.
-  assert (Hi' : (i < length vs)%nat).
+  assert (Hi' : (i < List.length vs)%nat).
   { rewrite Hlen. apply nth_error_Some. rewrite Hn. discriminate. }
   rewrite <- (firstn_skipn i vs) at 2.
   rewrite app_nth1; [reflexivity |]. rewrite firstn_length. lia.
@@ -445,11 +478,11 @@ Proof. split; vm_compute; reflexivity. Qed.
 
 (* MSL PipelineConstants: a missing value without default is not an error (there is no
    error outcome at all), and an out-of-range value silently keeps the default *)
-Theorem msl_resolution_never_fails : forall ds m, length (msl_resolve ds m) = length ds.
+Theorem msl_resolution_never_fails : forall ds m, List.length (msl_resolve ds m) = List.length ds.
 Proof.
   intros ds m. unfold msl_resolve.
-  assert (G : forall ds vals, length (msl_resolve_from m vals ds) = (length vals + length ds)%nat).
-  { induction ds0 as [| d ds0 IH]; intros vals; cbn [msl_resolve_from length].
+  assert (G : forall ds vals, List.length (msl_resolve_from m vals ds) = (List.length vals + List.length ds)%nat).
+  { induction ds0 as [| d ds0 IH]; intros vals; cbn [msl_resolve_from List.length].
     - lia.
     - rewrite IH, app_length. cbn. lia. }
   rewrite G. reflexivity.
